@@ -778,10 +778,18 @@ impl SvgElement {
         // as intermediate (e.g. `wh` expansion) size attributes for other elements.
         let mut width = None;
         let mut height = None;
-        if let Some(w) = self.attrs.get("width") {
+        // (a length with a unit or a percentage is passed through: no known size)
+        let plain_svg_length = |v: &str| {
+            strp(v).is_err()
+                && !(v.contains(VAR_PREFIX)
+                    || v.contains(ELREF_ID_PREFIX)
+                    || v.contains(ELREF_PREVIOUS)
+                    || v.contains("{{"))
+        };
+        if let Some(w) = self.attrs.get("width").filter(|w| !plain_svg_length(w)) {
             width = Some(strp(w)?);
         }
-        if let Some(h) = self.attrs.get("height") {
+        if let Some(h) = self.attrs.get("height").filter(|h| !plain_svg_length(h)) {
             height = Some(strp(h)?);
         }
         match self.name.as_str() {
